@@ -253,7 +253,7 @@ def apply_rules(text, rules, log, kname):
             # projects (non-empty replacement) may fire a different number of times after a harmless refactoring: text it no
             # longer matches stays C++ and is caught by the leftover scan, the C compiler or the undeclared-function guard of
             # the runner (all: undecided), text it newly matches is mapped the same way and judged by the contract.
-            drops = rep.strip() in ("", "(void)0;", ";") or rep.strip().startswith("/*")
+            drops = (not callable(rep)) and (rep.strip() in ("", "(void)0;", ";") or rep.strip().startswith("/*"))
             if drops or os.environ.get("VERIF_STRICT_RULES"):
                 raise ExtractionError("kernel %s: rule %d /%s/ fired %d times, expected %s" % (kname, idx, pat, cnt, expect))
             log.append("note: rule %d fired %d times instead of %s (tolerated: renaming/projecting rule)" % (idx, cnt, expect))
